@@ -5,6 +5,10 @@
 //! answers in the permuted order with one action per request (by arrival): `r` reply, `d` drop, `u` reply twice,
 //! `l` reply late (after the timeout), `x` reply with a foreign req_id. Afterwards every stream issues one more
 //! request which is answered normally (a late reply must not be handed to it).
+//!   rqcut <clones> <outages>        a requestor with clones survives outages (the harness closes its connection); after
+//!                                   each recovery all clones have overlapping requests in flight against a slow replier
+//!   rqreuse <n>                     a request times out, every requestor stream of the topic closes, a new requestor
+//!                                   opens and calls; the replier then sends the late reply before the new one (n rounds)
 //! `<order>` (written by the harness) is the arrival order as `stream.clone` tokens.
 //! Implementation line: per arrival the outcome of that call (`ok`, `timeout`, `wrong:<payload>`, `err:<e>`),
 //! then `| ` + the outcomes of the follow-up calls per stream.
@@ -120,6 +124,84 @@ async fn run_case(addr: SocketAddr, certs: &Certs, t: &[&str]) -> anyhow::Result
     Ok((arrival.join(","), format!("{} | {}", outs.join(","), follow.join(","))))
 }
 
+/// a raw replier that answers every request correctly (echoing its headers) after `delay`, `hold_first`: the
+/// first request of the topic is only answered when the second one has arrived (late), just before it
+async fn scripted_replier(addr: SocketAddr, certs: &Certs, topic: &str, delay: Duration, hold_first: bool) -> anyhow::Result<tokio::task::JoinHandle<()>> {
+    let conn = raw_connect(addr, &certs.client("ca.der"), Some((&certs.client("localhost.der"), &certs.client("localhost.key.der")))).await?;
+    let mut rs = raw_stream(&conn).await?;
+    rs.send(Frame::RegisterReplier(ReplierPayload { topic: TopicName::try_from(topic)? })).await?;
+    match rs.next().await { Some(Ok(Frame::Ok)) => {}, other => anyhow::bail!("replier registration answered {other:?}") }
+    Ok(tokio::spawn(async move {
+        let _keep = conn;
+        let (mut sink, mut stream) = rs.split();
+        let (tx, mut rx) = tokio::sync::mpsc::unbounded_channel::<Frame>();
+        let writer = tokio::spawn(async move { while let Some(f) = rx.recv().await { if sink.send(f).await.is_err() { break; } } });
+        let mut held: Option<MessagePayload> = None;
+        let mut first = true;
+        while let Some(Ok(Frame::Message(p))) = stream.next().await {
+            let reply = |p: &MessagePayload| Frame::Message(MessagePayload { headers: p.headers.clone(), message: format!("r:{}", String::from_utf8_lossy(&p.message)).into() });
+            if hold_first && first { first = false; held = Some(p); continue; }
+            if let Some(h) = held.take() { let _ = tx.send(reply(&h)); }
+            let tx2 = tx.clone();
+            let f = reply(&p);
+            tokio::spawn(async move { tokio::time::sleep(delay).await; let _ = tx2.send(f); });
+        }
+        writer.abort();
+    }))
+}
+
+async fn run_cut(addr: SocketAddr, certs: &Certs, clones: usize, outages: usize) -> anyhow::Result<String> {
+    let topic = format!("/verif/rpc{}", TOPIC.fetch_add(1, Ordering::SeqCst));
+    let rep = scripted_replier(addr, certs, &topic, Duration::from_millis(250), false).await?;
+    tokio::time::sleep(Duration::from_millis(30)).await;
+    let client = client(addr, certs, BackoffStrategy::constant().with_max_attempts(5).with_step(Duration::from_millis(20))).await?;
+    let rq = client.requestor(&topic).with_request_encoder(StringCodec).with_reply_decoder(StringCodec).with_request_timeout(2500u64)?.open().await?;
+    let mut outs = vec![];
+    for k in 0..=outages {
+        if k > 0 {
+            client.verif_close_connection().await;
+            // every clone notices the loss and re-establishes itself with a throw-away call
+            for c in 0..clones { let mut r = rq.clone(); let _ = tokio::time::timeout(Duration::from_secs(5), r.request(format!("w{k}.{c}"))).await; }
+        }
+        let mut calls = vec![];
+        for c in 0..clones {
+            let mut r = rq.clone();
+            let own = format!("q{k}.{c}");
+            calls.push(tokio::spawn(async move { let res = tokio::time::timeout(Duration::from_secs(6), r.request(own.clone())).await; (own, res) }));
+            tokio::time::sleep(Duration::from_millis(15)).await;
+        }
+        for c in calls {
+            let (own, res) = c.await?;
+            outs.push(match res { Err(_) => "hang".to_string(), Ok(r) => outcome(&r, &own) });
+        }
+    }
+    rep.abort();
+    Ok(outs.join(","))
+}
+
+async fn run_reuse(addr: SocketAddr, certs: &Certs, rounds: usize) -> anyhow::Result<String> {
+    let mut outs = vec![];
+    for _ in 0..rounds {
+        let topic = format!("/verif/rpc{}", TOPIC.fetch_add(1, Ordering::SeqCst));
+        let rep = scripted_replier(addr, certs, &topic, Duration::from_millis(1), true).await?;
+        tokio::time::sleep(Duration::from_millis(30)).await;
+        let client = client(addr, certs, BackoffStrategy::constant().with_max_attempts(0)).await?;
+        let mut a = client.requestor(&topic).with_request_encoder(StringCodec).with_reply_decoder(StringCodec).with_request_timeout(250u64)?.open().await?;
+        let ra = a.request("slow".to_string()).await;
+        outs.push(outcome(&ra, "slow"));
+        drop(a);
+        // the router sees that its last requestor stream has ended
+        tokio::time::sleep(Duration::from_millis(200)).await;
+        let mut b = client.requestor(&topic).with_request_encoder(StringCodec).with_reply_decoder(StringCodec).with_request_timeout(1500u64)?.open().await?;
+        let rb = b.request("second".to_string()).await;
+        outs.push(outcome(&rb, "second"));
+        let rb2 = b.request("third".to_string()).await;
+        outs.push(outcome(&rb2, "third"));
+        rep.abort();
+    }
+    Ok(outs.join(","))
+}
+
 pub fn run(cfg: &Cfg) {
     let mut out = Out::new(&cfg.out, "e2ereq");
     let rt = runtime();
@@ -140,11 +222,38 @@ pub fn run(cfg: &Cfg) {
                 }
             }
         }
+        cases.push("rqcut 3 1".into());
+        cases.push("rqcut 2 2".into());
+        cases.push("rqreuse 2".into());
+        if cfg.tier == Tier::Thorough { cases.push("rqcut 6 3".into()); cases.push("rqreuse 6".into()); }
         cases.push("rq 2 1 400 rev l,l".into());
         cases.push("rq 1 4 400 rev l,r,d,u".into());
     }
     for c in &cases {
         let t: Vec<&str> = c.split(' ').collect();
+        if t[0] == "rqcut" || t[0] == "rqreuse" {
+            let res = rt.block_on(async {
+                tokio::time::timeout(Duration::from_secs(90), async {
+                    if t[0] == "rqcut" { run_cut(addr, &certs, t[1].parse()?, t[2].parse()?).await } else { run_reuse(addr, &certs, t[1].parse()?).await }
+                }).await
+            });
+            let (imp, mon) = match res {
+                Err(_) => ("TIMEOUT".to_string(), Err("C04: the exchange did not complete within 90 s".to_string())),
+                Ok(Err(e)) => (format!("ERROR {}", format!("{e:?}").replace('\n', " ").chars().take(200).collect::<String>()), Err(format!("C04: {e}"))),
+                Ok(Ok(line)) => {
+                    let mut m = Ok(());
+                    for (j, o) in line.split(',').enumerate() {
+                        if o.starts_with("wrong") { m = Err(format!("C04: request() returned another request's reply ({o}) [{line}]")); break; }
+                        let want = if t[0] == "rqreuse" && j % 3 == 0 { "timeout" } else { "ok" };
+                        if o != want { m = Err(format!("C04: call {j} ended with {o}, expected {want} [{line}]")); break; }
+                    }
+                    (line, m)
+                }
+            };
+            out.stat(t[0]);
+            out.case(c, &imp, mon);
+            continue;
+        }
         let res = rt.block_on(async { tokio::time::timeout(Duration::from_secs(40), run_case(addr, &certs, &t)).await });
         let acts: Vec<&str> = t[5].split(',').collect();
         let (case_line, imp, mon) = match res {
